@@ -139,6 +139,11 @@ Lose ==
      ELSE Failure
   /\ UNCHANGED <<p, att, cur, srvDown, opened, pending, served>>
 
+(* pinned behaviour only: the server goes away for good while the client sits on the dead connection *)
+DownUnnoticed(s) ==
+  /\ phase = "zombie" /\ ~srvDown /\ s.beh = "down" /\ srvDown' = TRUE /\ cur' = s
+  /\ UNCHANGED <<p, phase, k, delay, acc, att, result, opened, pending, served, hist>>
+
 Wake ==
   /\ phase = "waiting" /\ phase' = "connecting"
   /\ UNCHANGED <<p, k, delay, acc, att, cur, result, srvDown, opened, pending, served, hist>>
@@ -193,7 +198,7 @@ TypeOK ==
 (* Observable timing (used by RetryTrace.tla and printed with scripts) *)
 (* ------------------------------------------------------------------ *)
 Gran == 5            \* clock granularity / rounding allowance of an exact lower bound
-AcceptSlack == 100   \* a stalled handshake is timed by the client from a moment shortly BEFORE the server can observe the connection
+AcceptSlack == 250   \* a stalled handshake is timed by the client from a moment shortly BEFORE the server can observe the connection
 Late == 1500         \* generous allowance for a loaded machine
 (* time the step itself takes from its observable base event until the client notices the failure *)
 Own(beh, params) == IF beh = "stall" THEN params.hs ELSE IF beh = "mute" THEN params.ct ELSE 0
